@@ -297,7 +297,45 @@ def _lib():
             def helper(x):
                 return x.n * 2
         return select((x.id, helper(x)) for x in A)[:]
+
+    @reg('variant')
+    def ordered_result_mutated(E, db, p):
+        # the same ordered query (one code object); variants 1 and 2 change THEIR result in place: the next execution of the
+        # query in the session must still come back in the order of its ORDER BY (order-sensitive: returned as text)
+        A = E['A']
+        q = select(x.id for x in A).order_by(-1)
+        r = q[:]
+        if p == 1:
+            r.reverse()
+        elif p == 2:
+            r.sort()
+        return 'order:' + ','.join(str(i) for i in r)
+
+    @reg('variant')
+    def ordered_page_mutated(E, db, p):
+        B = E['B']
+        q = select((x.n, x.id) for x in B).order_by(lambda: (x.n, x.id))
+        r = q[:3]
+        if p:
+            r.shuffle() if p == 2 else r.reverse()
+            return 'mutated'
+        return 'order:' + ','.join(str(i) for i in r)
+
+    @reg('scalar')
+    def inlined_function_global(E, db, p):
+        # the value (and type) of a module-level variable read by a function that Pony inlines into the query
+        global INLINED_GLOBAL
+        INLINED_GLOBAL = p
+        A = E['A']
+        return select(x.id for x in A if _inlined_cmp(x))[:]
     return L
+
+
+INLINED_GLOBAL = 0
+
+
+def _inlined_cmp(x):
+    return x.n == INLINED_GLOBAL
 
 
 _LIB = None
